@@ -11,13 +11,14 @@ for sid in ids:
         continue
     meta = json.load(open(os.path.join(d, 'meta.json')))
     prop, letter = sid.split('-')
+    file_letter = 'A' if letter == 'H' else letter
     tmp = tempfile.mkdtemp(prefix='sr-', dir=os.environ.get('PV_TMP', '/var/tmp'))
     try:
-        shutil.copy(os.path.join(d, 'patch.diff'), os.path.join(tmp, 'patch%s.diff' % letter))
-        shutil.copy(os.path.join(d, 'demo.c'), os.path.join(tmp, 'demo%s.c' % letter))
+        shutil.copy(os.path.join(d, 'patch.diff'), os.path.join(tmp, 'patch%s.diff' % file_letter))
+        shutil.copy(os.path.join(d, 'demo.c'), os.path.join(tmp, 'demo%s.c' % file_letter))
         open(os.path.join(tmp, 'NOTES.md'), 'w').write(meta.get('needs_to_manifest', ''))
         checks = sorted(set([prop] + meta.get('detected_by', [])))
-        cmd = [os.path.join(VERIF, 'tools', 'seeded_confirm.py'), prop, letter, tmp] + (['--all'] if '--all-checks' in sys.argv else ['--checks', ','.join([prop] + [c for c in checks if c != prop])])
+        cmd = [os.path.join(VERIF, 'tools', 'seeded_confirm.py'), prop, file_letter, tmp, '--id', sid] + (['--all'] if '--all-checks' in sys.argv else ['--checks', ','.join([prop] + [c for c in checks if c != prop])])
         r = subprocess.run(cmd, stdout=subprocess.PIPE, stderr=subprocess.STDOUT, text=True)
         line = r.stdout.strip().splitlines()[-1] if r.stdout.strip() else ''
         try:
